@@ -28,6 +28,8 @@ def templates():
     out += [("neg|f", "f", "-{f}"), ("pos|f", "f", "+{f}"), ("abs|f", "f", "abs({f})"),
             ("val|f", "v", "{f}.val()"), ("conv|i", "f", "LinCombFxp({i})"), ("conv_val|i", "v", "LinCombFxp({i}).val()"),
             ("pub|c", "v", "PubValFxp({c}).val()"), ("priv_noconv", "v", "PrivValFxp({K}, False).val()"),
+            ("pub_noconv", "v", "PubValFxp({K}, False).val()"), ("pub_noconv_kw", "f", "PubValFxp({K}, doconvert=False) + {f}"),
+            ("priv_noconv_kw", "f", "PrivValFxp({K}, doconvert=False) - {c}"), ("pub_conv_f", "f", "PubValFxp({c}) * {k}"),
             ("ite|bff", "f", "if_then_else({b}, {f}, {f})"), ("ite|bfi", "f", "if_then_else({b}, {f}, {i})"),
             ("ite|bif", "f", "if_then_else({b}, {i}, {f})"), ("ite|bfc", "f", "if_then_else({b}, {f}, {c})"),
             ("divmod|ff", "f", "divmod({f}, {f})[1]"), ("divmod|fK", "f", "divmod({f}, {k})[0]"),
